@@ -430,6 +430,43 @@ def reachList (h : Heap) (m : Ref) : List Ref :=
     m :: i :: vs.flatMap (fun v => v :: (match h.get v with | some o => o.refs | none => []))
   | _ => [m]
 
+/-! ### reading values back: `m["name"]`, `get_value`, the getters with `unpack_singleton` -/
+
+/-- what a read returns: one value (a singleton model, unpacked) or the list of per-variant values -/
+inductive Read
+  | scalar (v : Val)
+  | list (vs : List Val)
+  deriving DecidableEq, Repr, Inhabited
+
+/-- `has_variants.unpack_singleton(values, is_singleton, unpack_singleton)` -/
+def unpackSingleton (vs : List Val) (isSingleton unpack : Bool) : Read :=
+  if unpack && isSingleton then
+    (match vs with
+     | v :: _ => .scalar v
+     | [] => .list [])
+  else .list vs
+
+/-- `_get_values_as_dict("levels", [qid])[name]`: the level of quantity `qid` in every variant, in order -/
+def levelsOf (h : Heap) (q : Nat) : List Ref → Option (List Val)
+  | [] => some []
+  | v :: vs =>
+    match observeVar h v, levelsOf h q vs with
+    | some o, some rest => some ((o.levels[q]?).getD none :: rest)
+    | _, _ => none
+
+/-- `m["name"]` / `m.get_value("name")` (and, with `unpack`, the getters `get_parameters`, `get_steady_levels` for one name):
+per-variant values, unpacked only when the model has exactly ONE variant; an unknown name raises -/
+def getValue (h : Heap) (m : Ref) (name : String) (unpack : Bool := true) : R Read :=
+  match getModel h m with
+  | .ok (_, vs, d) =>
+    (match qidOf d name with
+     | none => .error .bad
+     | some q =>
+       match levelsOf h q vs with
+       | some vals => .ok (unpackSingleton vals (vs.length == 1) unpack)
+       | none => .error .dangling)
+  | .error e => .error e
+
 /-! ### the operation language of the interleaving theorems and of the driver -/
 
 inductive Op
